@@ -171,6 +171,7 @@ fn all_calls(m: &mut Matcher, case: &Case, hr: bool, nr: bool) -> Result<Vec<(Op
 /// decision are where an extent computed differently from the layout would show.
 fn frontier_sweep(opts: &Opts, rep: &mut Report) {
     let mut m = Matcher::default();
+    let mut bad: Vec<String> = Vec::new();
     let mut run = |m: &mut Matcher, n: usize, h: usize, wide: bool| -> bool {
         let mut hay: Vec<char> = Vec::with_capacity(h);
         hay.push('a');
@@ -181,11 +182,23 @@ fn frontier_sweep(opts: &Opts, rep: &mut Report) {
         let (ht, nt) = (Text::new(hay), Text::new(needle));
         let before = SLAB_REPORTS.load(Ordering::Relaxed);
         let mut idx = Vec::new();
-        let r = caught(|| m.fuzzy_indices(ht.view(!wide), nt.view(!wide), &mut idx));
-        if r.is_err() {
-            *m = Matcher::default();
+        let r = caught(|| {
+            let with_indices = m.fuzzy_indices(ht.view(!wide), nt.view(!wide), &mut idx);
+            (with_indices, m.fuzzy_match(ht.view(!wide), nt.view(!wide)))
+        });
+        let used_matrix = SLAB_REPORTS.load(Ordering::Relaxed) > before;
+        // on both sides of the dispatch decision the answer is the same kind of answer: a match (the needle is a
+        // subsequence by construction), one valid index per needle character, the same score from both variants
+        let witness_ok = idx.len() == n && idx.windows(2).all(|w| w[0] < w[1]) && idx.iter().zip(nt.chars.iter()).all(|(&i, &c)| ht.chars.get(i as usize) == Some(&c));
+        match r {
+            Ok((Some(a), Some(b))) if a == b && witness_ok => (),
+            Ok(other) => bad.push(format!("needle {n} window {h} wide={wide} matrix={used_matrix}: fuzzy_indices / fuzzy_match returned {other:?}, indices valid: {witness_ok}")),
+            Err(e) => {
+                bad.push(format!("needle {n} window {h} wide={wide}: {e}"));
+                *m = Matcher::default();
+            }
         }
-        SLAB_REPORTS.load(Ordering::Relaxed) > before
+        used_matrix
     };
     let mut frontiers = 0u64;
     for wide in [false, true] {
@@ -216,6 +229,9 @@ fn frontier_sweep(opts: &Opts, rep: &mut Report) {
         }
     }
     rep.add("c10.slab-frontiers-located", frontiers);
+    for b in bad.iter().take(3) {
+        rep.violation("C10", "result-changes-at-the-dispatch-frontier", "frontier".into(), jobj! {"problem" => b.clone()});
+    }
 }
 
 pub fn run(opts: &Opts, pools: &Pools, rep: &mut Report) {
